@@ -32,6 +32,8 @@ def run_np_case(rec, k):
     raw = larr
     if rk == "none":
         name, args, kw = FORMS.get(f, (f, (), {}))
+        if f.startswith("power_"):
+            name, args = "power", ({"power_int2": 2, "power_nd2": np.array(2), "power_nd3": np.array(3)}[f],)
         fn = getattr(np, name)
         sa = snapshot(a)
         try:
